@@ -99,17 +99,25 @@ func c03Ops(maxL int) []listOp {
 
 type c03Cfg struct {
 	listCfg
-	Ctor string // "", "0", "-1": constructor argument for the no-capacity family
+	Ctor   string // "", "0", "-1": constructor argument for the no-capacity family
+	Policy bool   // an accept-everything push policy is installed (Push then takes the policy path)
 }
 
 func c03Machine(c *Ctx, cfg c03Cfg) *Machine[*listInst] {
 	ops := c03Ops(cfg.MaxL)
 	name := "C03 " + cfg.String() + " ctor=" + cfg.Ctor
+	if cfg.Policy {
+		name += " push-policy"
+	}
 	return &Machine[*listInst]{
 		Name: name,
 		New: func() *listInst {
 			if cfg.Ctor == "" {
-				return cfg.build()
+				in := cfg.build()
+				if cfg.Policy {
+					in.s.SetPushPolicy(func(...any) error { return nil })
+				}
+				return in
 			}
 			arg := 0
 			if cfg.Ctor == "-1" {
@@ -172,10 +180,14 @@ func c03Configs(c *Ctx) []c03Cfg {
 	for _, k := range kinds {
 		for _, fifo := range []bool{false, true} {
 			for _, cp := range caps {
-				out = append(out, c03Cfg{listCfg{k, fifo, cp, false, false, cp}, ""})
+				out = append(out, c03Cfg{listCfg{k, fifo, cp, false, false, cp, false, false}, "", false})
+				if k == "LIST" || k == "AND" || !c.Quick() {
+					out = append(out, c03Cfg{listCfg{k, fifo, cp, false, false, cp, false, false}, "", true})
+					out = append(out, c03Cfg{listCfg{k, fifo, cp, false, false, cp, true, false}, "", false})
+				}
 			}
 			for _, ctor := range []string{"", "0", "-1"} {
-				out = append(out, c03Cfg{listCfg{k, fifo, 0, false, false, 3}, ctor})
+				out = append(out, c03Cfg{listCfg{k, fifo, 0, false, false, 3, false, false}, ctor, false})
 			}
 		}
 	}
@@ -198,6 +210,7 @@ func init() {
 }
 
 func runC03(c *Ctx) {
+	installLockModel()
 	cfgs := c03Configs(c)
 	c.Rule = "BFS to fix-point over every state with Len<=k (and Len<=3 for the no-capacity family) x growth/shrink alphabet (Push batches 1-3, Insert, Transfer-into from sources of length 0-3, Marshal-into, Pop, Remove, Reset); non-trivial = distinct (configuration, state, growth operation) where the stack was full before or after the operation"
 	c.Exhaustive = true
